@@ -1,4 +1,5 @@
 #!/bin/sh
+export VERIF_EVIDENCE_DIR=/tmp/seedtools/evidence   # runs on a patched tree must not overwrite the committed evidence
 # tools/with_patch.sh <patch.diff> <command...> : apply a patch to /repo, run the command from /verif, undo the patch.
 P="$(realpath "$1")"; shift
 git -C /repo diff --quiet || { echo "/repo has uncommitted changes; refusing"; exit 3; }
